@@ -32,6 +32,12 @@ CHECKS = {
  'C13': ('libx', 'bounded-exhaustive enumeration of all preambles of <= 6 distinct lines over a 14-line alphabet on the real Parse+Resolve, against a reference expander that is conformance-checked against apparmor_parser on every preamble of <= 4 lines',
          'All 2.2 million sequences (thorough) are executed on the real code; the reference model is bound to the real AppArmor parser by replaying every short sequence against `-D expanded-variables`.',
          'reference expander in engine/gox/cmd/c13x; apparmor_parser 3.0.8', 'DESIGN.md §4 C13'),
+ 'C10': ('libx+dfax', 'bounded-exhaustive enumeration of all ordered pairs (whole universe), triples and quadruples (reduced universe) of rules of every kind through the real Rules.Merge, against an independent fact-set denotation that is itself bound to the reference parser by DFA product equivalence on the pairs Merge touched',
+         'Every list inside the bound is merged by the real code and its set of (qualifier, subject, permission) facts compared before and after; idempotence is checked on the same lists; the conjunctive/disjunctive reading of each AppArmor-3 kind is validated by compiling unmerged and merged text with apparmor_parser and exploring the product of the two policy DFAs.',
+         'denotation in engine/gox/cmd/c10x; universe in engine/gox/universe; apparmor_parser 3.0.8', 'DESIGN.md §4 C10'),
+ 'C11': ('libx', 'bounded-exhaustive: the sign matrix of the real Compare over the whole universe of each kind (and of Rules.Sort on mixed-kind pairs) decides all ordered pairs and triples; all permutations of all k-subsets (k <= 5) of a 12-rule universe go through the real Rules.Sort',
+         'Antisymmetry, transitivity and "equal only if identical" are checked on every pair and triple of the universe (1.9e12 triples for file rules in the thorough tier), canonical sorting on every permutation of every small sub-list.',
+         'universe in engine/gox/universe; comments exempt', 'DESIGN.md §4 C11'),
 }
 PENDING = {}
 def main():
